@@ -66,9 +66,22 @@ Special(t, doc, out) ==
        ELSE IF "ok" \in DOMAIN out /\ out.ok = JStr(JsonText(x)) THEN "none" ELSE "value"
   ELSE "na"
 
+(* C10 "using only the implementation": the cross-operator laws on the six observed results [==, !=, <, <=, >, >=] *)
+SixLaws(out) ==
+  IF "ok" \notin DOMAIN out \/ out.ok.t # "arr" \/ Len(out.ok.a) # 6 THEN FALSE
+  ELSE LET v == out.ok.a
+           T(i) == v[i] = JTrue
+           isB(i) == v[i].t = "bool"
+       IN /\ isB(1) /\ isB(2) /\ T(2) = ~T(1)
+          /\ (\A i \in 3..6 : v[i] = JNull) \/ (\A i \in 3..6 : isB(i))
+          /\ ((\A i \in 3..6 : isB(i)) =>
+                /\ Cardinality({i \in {1, 3, 5} : T(i)}) = 1
+                /\ T(4) = (T(3) \/ T(1)) /\ T(6) = (T(5) \/ T(1)))
+
 Why(r) ==
   LET x == Exp(r) IN
-  IF x.skip THEN "none"
+  IF r.e = "cmp" /\ ~SixLaws(r.out) THEN "laws"
+  ELSE IF x.skip THEN "none"
   ELSE IF x.o.amb THEN LET sp == Special(x.t, x.d, r.out) IN IF sp = "na" THEN "none" ELSE sp
   ELSE Verdict(x.o, r.out)
 
